@@ -42,10 +42,12 @@ TABLE = {
             ('OpyVerif.Proofs.C14', 'Opy.G', r'agree_sound|accepts_iff_all_domains'),
             ('OpyVerif.Proofs.C18real', 'Opy', r'uniformAffine_mem'),
             ('OpyVerif.Proofs.InitProg', 'Opy', None), ('OpyVerif.Proofs.InitCode', 'Opy', None), ('OpyVerif.Generated.Init', 'Opy.Gen', None),
-            ('OpyVerif.Generated.FormulasC18', 'Opy.Gen', r'uniformWrapper_eq|gaussianWrapper_eq')],
+            ('OpyVerif.Generated.FormulasC18', 'Opy.Gen', r'uniformWrapper_eq|gaussianWrapper_eq'),
+            ('OpyVerif.Proofs.CreateCode', 'Opy', None), ('OpyVerif.Generated.Create', 'Opy.Gen', None)],
     'C07': [('OpyVerif.Proofs.C07', 'Opy', None),
             ('OpyVerif.Proofs.Accept', 'Opy', r'accept_private|accept_pair'),
-            ('OpyVerif.Generated.Accepts', 'Opy.Gen', r'acceptSites_ok')],
+            ('OpyVerif.Generated.Accepts', 'Opy.Gen', r'acceptSites_ok'),
+            ('OpyVerif.Proofs.CreateProg', 'Opy', None), ('OpyVerif.Proofs.CreateCode', 'Opy', None), ('OpyVerif.Generated.Create', 'Opy.Gen', None)],
     'C08': [('OpyVerif.Proofs.C08ops', 'Opy.PNode', None), ('OpyVerif.Proofs.C08grow', 'Opy.PNode', None),
             ('OpyVerif.Generated.Constants', 'Opy.Gen', r'nArgs_'),
             ('OpyVerif.Proofs.HeapCode', 'Opy', None), ('OpyVerif.Generated.HeapOps', 'Opy.Gen', None),
